@@ -171,7 +171,7 @@ func vfC02Case(rt *rapid.T, c *ev.Collector) {
 	br, _ := vfGenBridge(rt, []int{0, 0, 0, 1})
 	ent := vfEnt(rapid.Uint64().Draw(rt, "refEntropy"))
 	legacy := rapid.Bool().Draw(rt, "legacyBridgeLine")
-	scenario := rapid.SampledFrom([]string{"genuine", "wrong-nodeid-bit", "wrong-pubkey-bit", "impostor", "tamper", "tamper", "retry-after-failure"}).Draw(rt, "scenario")
+	scenario := rapid.SampledFrom([]string{"genuine", "wrong-nodeid-bit", "wrong-pubkey-bit", "impostor", "tamper", "tamper", "retry-after-failure", "interleaved-handshakes"}).Draw(rt, "scenario")
 	endByDeadline := rapid.Bool().Draw(rt, "endByDeadline")
 	var desc string
 	segments := 1
@@ -249,6 +249,129 @@ func vfC02Case(rt *rapid.T, c *ev.Collector) {
 			segments = 3
 		}
 		desc = fmt.Sprintf("genuine x%d", conns)
+
+	case "interleaved-handshakes":
+		// Several connections of one process (one client factory, one server
+		// factory) whose handshakes interleave in a generated, harness-owned order:
+		// connection 1 is parked with its handshake (client) or its response
+		// (server) held at the transport - blocked before the wire looks at the
+		// bytes, as on a full socket buffer - while other connections handshake from
+		// start to end.  Every one of them must complete with matching keys.
+		sf, err := vfServerFactory(br)
+		if err != nil {
+			rt.Fatalf("VIOL[c02-serverfactory]: %v", err)
+		}
+		cf, cargs, err := vfClientArgs(br, legacy, br.IAT)
+		if err != nil {
+			rt.Fatalf("VIOL[c02-parseargs]: %v", err)
+		}
+		type conn struct {
+			n      *wire.Net
+			cl, sv *drive.Endpoint
+		}
+		open := func() *conn {
+			n := wire.New()
+			return &conn{n: n}
+		}
+		startServer := func(k *conn) {
+			k.sv = drive.Start(k.n, wire.B, func() (net.Conn, error) { return sf.WrapConn(k.n.Conn(wire.B)) })
+		}
+		startClient := func(k *conn) {
+			k.cl = drive.Start(k.n, wire.A, func() (net.Conn, error) { return cf.Dial("tcp", "192.0.2.1:1", vfDialFn(k.n.Conn(wire.A)), cargs) })
+		}
+		full := func(k *conn, label string) {
+			startServer(k)
+			startClient(k)
+			if err := k.n.WaitQuiescent(wire.A, wire.B); err != nil {
+				rt.Fatalf("VIOL[c02-wedge]: %v", err)
+			}
+			if err := vfReleaseChunks(rt, k.n, wire.A, label+"c2s", wire.A, wire.B); err != nil {
+				rt.Fatalf("VIOL[c02-wedge]: %v", err)
+			}
+			if err := vfReleaseChunks(rt, k.n, wire.B, label+"s2c", wire.A, wire.B); err != nil {
+				rt.Fatalf("VIOL[c02-wedge]: %v", err)
+			}
+		}
+		verify := func(k *conn, name string) {
+			for side, ep := range map[string]*drive.Endpoint{"client": k.cl, "server": k.sv} {
+				if msg := vfEndpointFailure(side, ep); msg != "" {
+					rt.Fatalf("%s", msg)
+				}
+				if !ep.SetupDone() || ep.SetupErr() != nil {
+					rt.Fatalf("VIOL[c02-genuine-failed]: %s of %s did not complete a genuine handshake that was interleaved with other connections' handshakes: done=%v err=%v (%s)", side, name, ep.SetupDone(), ep.SetupErr(), desc)
+				}
+			}
+			m1, m2 := vfCounterStream(0, 0, 300), vfCounterStream(1, 0, 900)
+			if r, _, _ := k.cl.Write(m1); r.Failed() || r.Err != nil {
+				rt.Fatalf("VIOL[c02-genuine-failed]: client write: %s", r)
+			}
+			if r, _, _ := k.sv.Write(m2); r.Failed() || r.Err != nil {
+				rt.Fatalf("VIOL[c02-genuine-failed]: server write: %s", r)
+			}
+			k.n.ReleaseAll(wire.A)
+			k.n.ReleaseAll(wire.B)
+			if err := k.n.WaitQuiescent(wire.A, wire.B); err != nil {
+				rt.Fatalf("VIOL[c02-wedge]: %v", err)
+			}
+			if !bytes.Equal(k.sv.Got(), m1) || !bytes.Equal(k.cl.Got(), m2) {
+				rt.Fatalf("VIOL[c02-session-keys-differ]: data does not flow on %s after handshakes interleaved with other connections (server got %d/%d, client got %d/%d; read errors %v / %v; %s)", name, k.sv.GotLen(), len(m1), k.cl.GotLen(), len(m2), k.sv.ReadErr(), k.cl.ReadErr(), desc)
+			}
+		}
+		k1 := open()
+		defer k1.n.Shutdown()
+		holdClient := rapid.Bool().Draw(rt, "holdClientHandshake")
+		holdServer := rapid.Bool().Draw(rt, "holdServerResponse") || !holdClient
+		desc = fmt.Sprintf("interleaved: hold client handshake=%v, hold server response=%v", holdClient, holdServer)
+		var others []*conn
+		startServer(k1)
+		if holdClient {
+			k1.n.HoldWrites(wire.A, true)
+		}
+		startClient(k1)
+		if holdClient {
+			if !k1.n.WaitHeld(wire.A, 10*time.Second) {
+				rt.Fatalf("VIOL[c02-wedge]: client did not reach its handshake write")
+			}
+			for i := rapid.IntRange(1, 2).Draw(rt, "othersWhileClientHeld"); i > 0; i-- {
+				o := open()
+				defer o.n.Shutdown()
+				full(o, fmt.Sprintf("o%d", len(others)))
+				others = append(others, o)
+			}
+			k1.n.HoldWrites(wire.A, false)
+		}
+		if err := k1.n.WaitQuiescent(wire.A, wire.B); err != nil {
+			rt.Fatalf("VIOL[c02-wedge]: %v", err)
+		}
+		if holdServer {
+			k1.n.HoldWrites(wire.B, true)
+		}
+		if err := vfReleaseChunks(rt, k1.n, wire.A, "k1c2s", wire.A); err != nil {
+			rt.Fatalf("VIOL[c02-wedge]: %v", err)
+		}
+		if holdServer {
+			if !k1.n.WaitHeld(wire.B, 10*time.Second) {
+				rt.Fatalf("VIOL[c02-genuine-failed]: server did not answer a genuine client (done=%v err=%v; %s)", k1.sv.SetupDone(), k1.sv.SetupErr(), desc)
+			}
+			for i := rapid.IntRange(1, 2).Draw(rt, "othersWhileServerHeld"); i > 0; i-- {
+				o := open()
+				defer o.n.Shutdown()
+				full(o, fmt.Sprintf("o%d", len(others)))
+				others = append(others, o)
+			}
+			k1.n.HoldWrites(wire.B, false)
+		}
+		if err := k1.n.WaitQuiescent(wire.A, wire.B); err != nil {
+			rt.Fatalf("VIOL[c02-wedge]: %v", err)
+		}
+		if err := vfReleaseChunks(rt, k1.n, wire.B, "k1s2c", wire.A, wire.B); err != nil {
+			rt.Fatalf("VIOL[c02-wedge]: %v", err)
+		}
+		verify(k1, "the held connection")
+		for i, o := range others {
+			verify(o, fmt.Sprintf("connection %d made meanwhile", i+2))
+		}
+		segments = 3
 
 	case "retry-after-failure":
 		// One client factory: a first attempt fails part-way (the network fails while
@@ -512,7 +635,7 @@ func vfC02Case(rt *rapid.T, c *ev.Collector) {
 func TestVerifC02Scenarios(t *testing.T) {
 	vfSetup(t)
 	c := ev.For("C02")
-	c.Rule("scenarios: generated identity, node ID, seed, bridge-line form and chunk plans; scenario in {retry-after-failure (one client factory: a first attempt fails because the network fails while the handshake is written / the server stays silent / EOF, then a second connection through the same factory must complete and must not reuse the representative already sent), genuine (1-3 sequential connections, echo both ways, all ephemeral representatives distinct), one bit of the client's node ID / public key flipped (real server), impostor = reference server that knows the public bridge line only (AUTH from its own key, random AUTH, AUTH of another handshake, genuine AUTH with another Y', low-order Y'), tamper = modification of a genuine response in flight (blind: one bit of Y'|AUTH|M_S|MAC_S, a padding bit, insert / delete one byte, truncate, substitute another connection's response; informed: one bit of Y'|AUTH with mark and MAC recomputed from the public bridge line) with server payload queued behind it}; every server response is released with cuts drawn relative to its fields (inside MAC_S, inside the mark, at the Y' / AUTH boundaries, inside the seed frame behind it) before generic chunk plans; oracle: genuine => Dial/WrapConn succeed and data flows; otherwise, after the exchange ends by EOF or the fired client deadline, Dial has returned an error and zero application bytes surfaced; non-trivial = any non-genuine scenario or a genuine one delivered in >= 3 segments; fingerprint = scenario + parameters")
+	c.Rule("scenarios: generated identity, node ID, seed, bridge-line form and chunk plans; scenario in {retry-after-failure (one client factory: a first attempt fails because the network fails while the handshake is written / the server stays silent / EOF, then a second connection through the same factory must complete and must not reuse the representative already sent), genuine (1-3 sequential connections, echo both ways, all ephemeral representatives distinct), interleaved-handshakes (one client and one server factory; connection 1 parked with its handshake and/or its response held at the transport while 1-4 other connections handshake from start to end; all must complete with matching keys), one bit of the client's node ID / public key flipped (real server), impostor = reference server that knows the public bridge line only (AUTH from its own key, random AUTH, AUTH of another handshake, genuine AUTH with another Y', low-order Y'), tamper = modification of a genuine response in flight (blind: one bit of Y'|AUTH|M_S|MAC_S, a padding bit, insert / delete one byte, truncate, substitute another connection's response; informed: one bit of Y'|AUTH with mark and MAC recomputed from the public bridge line) with server payload queued behind it}; every server response is released with cuts drawn relative to its fields (inside MAC_S, inside the mark, at the Y' / AUTH boundaries, inside the seed frame behind it) before generic chunk plans; oracle: genuine => Dial/WrapConn succeed and data flows; otherwise, after the exchange ends by EOF or the fired client deadline, Dial has returned an error and zero application bytes surfaced; non-trivial = any non-genuine scenario or a genuine one delivered in >= 3 segments; fingerprint = scenario + parameters")
 	c.Assume("cryptographic strength (HMAC, X25519, SHA-256) is assumed; what is tested is that every check is wired in and bound to the right inputs")
 	for _, s := range []string{"genuine", "wrong-nodeid-bit", "wrong-pubkey-bit", "impostor", "tamper", "retry-after-failure"} {
 		c.Floor("scenario-"+s, 0.08)
